@@ -13,7 +13,7 @@ VERIF = os.path.dirname(os.path.dirname(os.path.abspath(__file__)))
 EXPECTED_UNDECIDED = {"revert-c200e8a"}
 FIXES = {
     "c3b3122": ["C10"], "4d75919": ["C07"], "c10e3b8": ["C07"], "c200e8a": ["C09"],
-    "183df72": ["C13"], "e817766": ["C13"], "29b186e": ["C15"], "1a58af3": ["C15"],
+    "183df72": ["C13"], "e817766": ["C13"], "29b186e": ["C15"], "1a58af3": ["C15"], "3a83d9d": ["C10"],
 }
 
 
